@@ -362,7 +362,7 @@ int main(int argc, char** argv)
         auto mine = [&]() { return (counter++ % nparts) == part; };
         std::vector<std::pair<double, double>> domains = {{1e-5, 1.3}, {0.1, 1.0}, {1.0, 2.0}};
         const int maxNrExp = thorough ? 6 : 5, maxDiv = thorough ? 2 : 1;
-        std::vector<int> ntes = {-1, 2, 3, 4, 5, 6, 7};
+        std::vector<int> ntes = thorough ? std::vector<int>{-1, 2, 3, 4, 5, 6, 7} : std::vector<int>{-1, 2, 3, 6};
         for (auto dom : domains) {
             double R0 = dom.first, Rmax = dom.second;
             std::vector<double> refs = {0.0, R0, Rmax, 1.5 * Rmax, R0 - 0.5 * R0};
@@ -393,26 +393,30 @@ int main(int argc, char** argv)
                             }
                         }
             // setup(): number of levels
-            for (int nr_exp = 2; nr_exp <= (thorough ? 6 : 5); nr_exp++)
-                for (int nte : {-1, 3, 4, 5, 6})
-                    for (int aniso : {0, 1, 2, 3})
-                        for (int div2 = 0; div2 <= 1; div2++)
-                            for (int maxlev : {-1, 2, 3}) {
-                                if (aniso >= nr_exp)
-                                    continue;
-                                Spec s;
-                                s.kind = "levels";
-                                s.R0 = R0;
-                                s.Rmax = Rmax;
-                                s.ref = R0 + 0.66 * (Rmax - R0);
-                                s.nr_exp = nr_exp;
-                                s.ntheta_exp = nte;
-                                s.aniso = aniso;
-                                s.div2 = div2;
-                                s.maxlev = maxlev;
-                                if (mine())
-                                    runForked(s);
-                            }
+            {
+                std::vector<int> lnte = thorough ? std::vector<int>{-1, 3, 4, 5, 6} : std::vector<int>{-1, 4};
+                std::vector<int> lml  = thorough ? std::vector<int>{-1, 2, 3} : std::vector<int>{-1, 2};
+                for (int nr_exp = 2; nr_exp <= (thorough ? 6 : 4); nr_exp++)
+                    for (int nte : lnte)
+                        for (int aniso : {0, 1, 2, 3})
+                            for (int div2 = 0; div2 <= 1; div2++)
+                                for (int maxlev : lml) {
+                                    if (aniso >= nr_exp || (!thorough && aniso == 3))
+                                        continue;
+                                    Spec s;
+                                    s.kind = "levels";
+                                    s.R0 = R0;
+                                    s.Rmax = Rmax;
+                                    s.ref = R0 + 0.66 * (Rmax - R0);
+                                    s.nr_exp = nr_exp;
+                                    s.ntheta_exp = nte;
+                                    s.aniso = aniso;
+                                    s.div2 = div2;
+                                    s.maxlev = maxlev;
+                                    if (mine())
+                                        runForked(s);
+                                }
+            }
             // files
             for (int nr_exp : {2, 3})
                 for (int aniso : {0, 1}) {
